@@ -361,3 +361,28 @@ Definition history_ok (raises : list (String.string * nat)) (ops : list (list St
   let (s, oks) := run_history compute ops [] in
   list_eqb Bool.eqb oks observed_flags
   && list_eqb Z.eqb (map (fun c => match slookup s c with Some v => v | None => (-1)%Z end) final_cols) observed_versions.
+
+(* ------------------------------------------------------------------------- *)
+(* MEAN of an INTEGER-backed column (StatType.MEAN.compute: np.mean(flattened[finite_mask])).
+   numpy accumulates the mean of an integer array in float64, never in the array's own integer
+   type: the model is the exact rational mean of the integers (float64 round-off of values beyond
+   2^53 is not modelled; the correspondence allows 2^-48 of the largest magnitude).
+   `wrapped_mean` is what `valid.sum() / valid.size` would give: the int64 sum wraps modulo 2^64. *)
+Definition zsum (l : list Z) : Z := fold_right Z.add 0%Z l.
+Definition int_mean (l : list Z) : Q := inject_Z (zsum l) / inject_Z (Z.of_nat (length l)).
+Definition wrap64 (z : Z) : Z := ((z + 2 ^ 63) mod 2 ^ 64 - 2 ^ 63)%Z.
+Definition in_int64 (z : Z) : Prop := (- 2 ^ 63 <= z < 2 ^ 63)%Z.
+Definition wrapped_mean (l : list Z) : Q := inject_Z (wrap64 (zsum l)) / inject_Z (Z.of_nat (length l)).
+
+(* observed double within 2^-48 of the largest magnitude of the exact value *)
+Definition mean_close (q maxabs : Q) (o : option dbl) : bool :=
+  match o with
+  | Some (DFin m e) => Qle_bool (Qabs (dbl_val m e - q)) ((1 # 281474976710656) * maxabs)
+  | _ => false
+  end.
+(* correspondence form for an integer-backed column (all cells present): the implementation's MEAN is
+   the exact mean of the integers, and -- whenever the total leaves the int64 range -- NOT the wrapped one *)
+Definition int_mean_ok (cells : list Z) (o : option dbl) : bool :=
+  let maxabs := inject_Z (fold_right (fun z a => Z.max (Z.abs z) a) 0%Z cells) in
+  mean_close (int_mean cells) maxabs o
+  && ((Z.leb (- 2 ^ 63) (zsum cells) && Z.ltb (zsum cells) (2 ^ 63)) || negb (mean_close (wrapped_mean cells) maxabs o)).
